@@ -605,14 +605,14 @@ impl<'value, 'loc: 'value> RootScope<'value, 'loc> {
         let match_all = query.match_all;
 
         let result = query_retrieval(0, &query.query, self.root(), self)?;
+        self.scope
+            .resolved_variables
+            .insert(variable_name, result.clone());
         let result = if !match_all {
                         verif_keep_resolved(result)
         } else {
             result
         };
-        self.scope
-            .resolved_variables
-            .insert(variable_name, result.clone());
         Ok(result)
     }
 }
